@@ -151,10 +151,12 @@ package bal_slb
 //@   ensures[the_backend_gets_the_configured_address_key] backRR.backend.AddrInfo == addrKey(*conf.Addr, *conf.Port)
 
 //@ func (*BackendRR).UpdateWeight
-//@   props C09
+//@   props C09,C01
 //@   nopanic nil
 //@   requires backRR != nil
 //@   modifies backRR.weight, backRR.current
+//@   ensures[a_reload_does_not_restart_the_rotation_of_a_serving_backend] weight > 0 ==> backRR.current == old(backRR.current)
+//@   ensures[a_drained_backend_starts_from_zero] weight <= 0 ==> backRR.current == 0
 
 //@ func (*BackendRR).Release
 //@   props C09
